@@ -33,6 +33,7 @@ def stepLine (st : DState) (line : String) : DState × String :=
   | "codec" :: args => (st, codecStep args)
   | "uri" :: args => (st, uriStep args)
   | "agent" :: args => let (s, o) := agentStep st.agent args; ({ st with agent := s }, o)
+  | "fuzz" :: args => (st, fuzzStep args)
   | "rpc" :: args => let (s, o) := rpcStep st.rpc args; ({ st with rpc := s }, o)
   | "agentlife" :: args => let (s, o) := lifeDrvStep st.life args; ({ st with life := s }, o)
   | ["noop"] => (st, "noop")
